@@ -311,8 +311,12 @@ def main():
         "wall_s": round(wall, 2),
         "violations": len(violations),
     }
-    os.makedirs(os.path.join(ROOT, "evidence"), exist_ok=True)
-    with open(os.path.join(ROOT, "evidence", pid + ".json"), "w") as f:
+    # evidence/<id>.json is only written by a registered-style run (against /repo itself, proofs on, default case
+    # count); scratch runs (VERIF_REPO=<worktree>, --no-coq, --cases N) record theirs under .cache/evidence_scratch/
+    scratch = core.REPO != "/repo" or args.no_coq or bool(args.cases)
+    evdir = os.path.join(core.CACHE, "evidence_scratch") if scratch else os.path.join(ROOT, "evidence")
+    os.makedirs(evdir, exist_ok=True)
+    with open(os.path.join(evdir, pid + ".json"), "w") as f:
         json.dump(ev, f, indent=1, sort_keys=True)
 
     for tag, fnd in open_known.items():
